@@ -10,6 +10,7 @@ import (
 
 	"saoverif/internal/core"
 	"saoverif/internal/guard"
+	"saoverif/internal/term"
 )
 
 // rulePermute (T-permute): the candidate selection reorders the slice of eligible providers in place (heap sift). The
@@ -125,6 +126,14 @@ func ruleShardOwner(r *core.Run, id string) {
 					}
 				}
 			}
+			if val == "" {
+				// the record is built elsewhere (a constructor helper, a literal assigned whole)
+				for _, ref := range *al.Referrers() {
+					if st, ok := ref.(*ssa.Store); ok && st.Addr == ssa.Value(al) {
+						val = normT(term.FieldOf(res.Of(st.Val), "OrderId").String())
+					}
+				}
+			}
 			okv := false
 			for i, p := range f.Params {
 				if shortTypeName(p.Type()) == "order/types.Order" && val == fmt.Sprintf("#%d.Id", i) {
@@ -210,47 +219,56 @@ func ruleUnschedule(r *core.Run, id string) {
 	if f == nil {
 		return
 	}
-	n := 0
+	// the write-back and the replacement of the list may sit in helpers that receive the record by pointer: both are
+	// looked for in every frame under the function
+	nSet := 0
+	type dstore struct {
+		g  *ssa.Function
+		st *ssa.Store
+	}
+	var stores []dstore
+	var firstSet ssa.CallInstruction
 	for _, fr := range frames(r, f) {
 		g := fr.Fn
 		for _, c := range callsIn(r, g, "model/keeper.Keeper.SetExpiredData") {
-			args := c.Common().Args
-			rec := args[len(args)-1]
-			n++
-			key := core.Key(id, fnName, fmt.Sprintf("SetExpiredData#%d", n))
-			u, ok := rec.(*ssa.UnOp)
-			var al *ssa.Alloc
-			if ok {
-				al, _ = u.X.(*ssa.Alloc)
+			nSet++
+			if firstSet == nil {
+				firstSet = c
 			}
-			if al == nil {
-				r.Violate(id, key, r.P.Pos(c.Pos()), "the schedule entry written back is not a local record whose Data was replaced by the filtered list")
-				continue
-			}
-			var dataVal ssa.Value
-			for _, ref := range *al.Referrers() {
-				fa, ok := ref.(*ssa.FieldAddr)
-				if !ok || fieldNameT(fa.X.Type(), fa.Field) != "Data" {
+		}
+		for _, b := range g.Blocks {
+			for _, ins := range b.Instrs {
+				st, ok := ins.(*ssa.Store)
+				if !ok {
 					continue
 				}
-				for _, rr := range *fa.Referrers() {
-					if st, ok := rr.(*ssa.Store); ok && st.Addr == ssa.Value(fa) {
-						dataVal = st.Val
-					}
+				fa, ok := st.Addr.(*ssa.FieldAddr)
+				if ok && shortTypeName(fa.X.Type())+"."+fieldNameT(fa.X.Type(), fa.Field) == "model/types.ExpiredData.Data" {
+					stores = append(stores, dstore{g, st})
 				}
-			}
-			if dataVal == nil {
-				r.Violate(id, key, r.P.Pos(c.Pos()), "the schedule entry is written back with the Data list it was read with: the id that was to be dropped stays scheduled, and the end-blocker of that height later deletes whatever model then lives under it (a cancelled order's rollback is not clean)")
-				continue
-			}
-			if listFedOnlyUnderV(r, g, dataVal, guard.Ne("*", "#*")) {
-				r.Discharge(id, key, r.P.Pos(c.Pos()), "the entry written back holds only ids tested unequal to the id being dropped")
-			} else {
-				r.Violate(id, key, r.P.Pos(c.Pos()), "the Data list of the schedule entry written back is not collected solely from ids tested unequal to the id being dropped: the cancelled model can stay scheduled")
 			}
 		}
 	}
-	r.Floor("unschedule_writebacks", n, 1)
+	key := core.Key(id, fnName, "entry written back without the dropped id")
+	switch {
+	case nSet == 0:
+		r.Undecide(id, key, r.P.FuncPos(f), "vacuous: no SetExpiredData under removeDataExpireBlock")
+	case len(stores) == 0:
+		r.Violate(id, key, r.P.Pos(firstSet.Pos()), "the schedule entry is written back with the Data list it was read with: the id that was to be dropped stays scheduled, and the end-blocker of that height later deletes whatever model then lives under it (a cancelled order's rollback is not clean)")
+	default:
+		bad := ""
+		for _, d := range stores {
+			if !listFedOnlyUnderV(r, d.g, d.st.Val, guard.Ne("*", "#*")) {
+				bad = r.P.Pos(d.st.Pos())
+			}
+		}
+		if bad == "" {
+			r.Discharge(id, key, r.P.Pos(firstSet.Pos()), "the entry's Data is replaced by a list collected only from ids tested unequal to the id being dropped")
+		} else {
+			r.Violate(id, key, bad, "the Data list of the schedule entry is replaced by a list that is not collected solely from ids tested unequal to the id being dropped: the cancelled model can stay scheduled")
+		}
+	}
+	r.Floor("unschedule_writebacks", nSet, 1)
 }
 
 // ruleExtendMeta (T-extend-meta): a typestate walk of Complete: "sched" (SetExpiredShardBlock) and "ext"
